@@ -851,6 +851,26 @@ def run(rec):
                         'phase': 'S', 'asgi': asgi, 'order': order, 'requests': [dict(r, body=r['body'].decode()) for r in reqs],
                         'first_bad': bad[0], 'got': got[bad[0]], 'alone': expect[bad[0]]})
         rec.case(('S', k, tuple(r['path'] for r in reqs)))
+    # ---- phase S3: a long-lived app - many requests one after the other on ONE app object (caches filling up and
+    #      evicting, counters, pooled objects); every response must be what the request gets alone on a fresh app
+    lrng = __import__('random').Random(777 + rec.shard + 1000 * rec.seed)
+    for asgi in (False, True):
+        call = asgi_serial_call if asgi else wsgi_call
+        variant = rec.shard % 4
+        app = build_app(asgi, False, variant)
+        nlong = (120 if quick else 1500) // (2 if asgi else 1)
+        for k in range(nlong):
+            r = gen_requests(lrng, 1, shared_accept=(k % 5 == 0))[0]
+            got = call(app, r)
+            if k % 3 == 0 or not quick:
+                alone = call(build_app(asgi, False, variant), r)
+                rec.count('mon.long_lived_app')
+                if got != alone:
+                    rec.violation('long-lived-app-differs-from-fresh', {
+                        'phase': 'S3', 'asgi': asgi, 'nth_request': k, 'request': dict(r, body=r['body'].decode()),
+                        'got': got, 'alone': alone})
+                    break
+        rec.case(('S3', asgi, variant))
     # ---- phase S2: position independence.  Two requests that differ only in a weight share one header element whose
     #      text is new to the process (a quoted parameter carrying a fresh token that nothing echoes); with the next
     #      fresh token the same two requests come in the opposite order.  What a request gets must not depend on
@@ -973,6 +993,7 @@ def run(rec):
     rec.floor('mon.serial_equivalence.D', 20)
     rec.floor('mon.serial_equivalence.S', 100)
     rec.floor('mon.position_independence', 10)
+    rec.floor('mon.long_lived_app', 40)
     rec.floor('mon.serial_equivalence.asgi', 30)
     rec.floor('mon.serial_equivalence.E', 20)
     rec.floor('E.yields_inside_asgi_request', 100)
